@@ -131,6 +131,8 @@ func (s *Server) Serve(l net.Listener) error {
 }
 
 func (s *Server) handleConn(c *Conn) error {
+	verifConnAccepted()
+
 	s.locker.Lock()
 	s.conns[c] = struct{}{}
 	s.locker.Unlock()
